@@ -151,10 +151,10 @@ PROPS["C16"] = {
     "level": "model_checking",
     "technique": "explicit-state BFS to a fixpoint over 1005h/1006h writes, SYNC and near-miss frames, NMT commands, ticks and error reads, against a reference model {identifier, producing, period, phase}",
     "text": "Five initial configurations of (1005h, 1006h, timer frequency). 21 events: SDO write 1005h in {80h, 81h, 40000080h, 40000081h}; SDO write 1006h in {0, 1, 2, 3 ticks, half a tick}; frames on 80h, 81h, 7Fh; NMT start/stop/pre-op/reset communication; tick; CONodeGetErr (the application reading - or not reading - the sticky node error); RPDO frames for a synchronous RPDO and a local write of its object. After every step: the produced SYNC frames (identifier, DLC 0, exactly every period counted from the start/re-timing write or reset, only in PRE-OP/OP), the SDO verdicts (0609 0030h with the old value kept for a CAN-ID change while producing and for a period below the timer resolution; read-back otherwise), recognition of received SYNC (type-1 TPDO sent exactly once in OPERATIONAL, buffered synchronous RPDO applied exactly once, near-miss identifiers handed to the application). The reachable state set is closed (fixpoint) for all five configurations.",
-    "note": "periods are whole ticks up to 3 ticks; enabling the producer while 1006h holds no usable period and writing 0 to 1006h while producing may be refused or accepted (the statement leaves it open); a frame buffered before an NMT change may be applied at the next SYNC in OPERATIONAL or dropped; periods above 6.5 s are not covered",
+    "note": "periods are whole ticks up to 3 ticks; enabling the producer while 1006h holds no usable period and writing 0 to 1006h while producing may be refused or accepted (the statement leaves it open); a frame buffered before an NMT change may be applied at the next SYNC in OPERATIONAL or dropped; periods above 6.5 s are covered by a dedicated sweep (9 periods from 6 s to 100 s at 100 Hz and 1 kHz: emissions exactly at period and 2 x period), not by the BFS",
     "jobs": {
-        "quick": [J("c16", c, depth=60, deadline=120) for c in range(5)],
-        "thorough": [J("c16", c, depth=60, deadline=600) for c in range(5)],
+        "quick": [J("c16", c, depth=60, deadline=120) for c in range(5)] + [J("c16long")],
+        "thorough": [J("c16", c, depth=60, deadline=600) for c in range(5)] + [J("c16long")],
     },
 }
 
